@@ -177,7 +177,8 @@ class DefaultErrorHandler(Contract):
         self.stubs = {'json.dumps': dumps, 'error_render.render': render}
         self.hdr = VObj('Headers', {})
         me = VObj('App', {'request': VObj('Request', {'is_json_requested': VBool(self.want_json), 'url': self.url}),
-                          'response': VObj('Response', {'headers': self.hdr}), 'config': VObj('Config', {'debug': self.debug})})
+                          'response': VObj('Response', {'headers': self.hdr}),
+                          'config': VObj('Config', {'debug': self.debug, 'catchall': X.fresh_bool('config_catchall')})})
         self.res = VObj('ErrResp', {'body': X.fresh_str('body'), 'exception': VOpaque(X.fresh(PyObj, 'exc')),
                                     'traceback': VOpaque(X.fresh(PyObj, 'tb'))})
         self.stored = {}
